@@ -49,3 +49,96 @@ pub fn build(id: &str) -> Option<Property> {
         _ => None,
     }
 }
+
+// ------------------------------------------------------------------------------------------------
+// coverage-guided campaigns of the thorough tiers
+// ------------------------------------------------------------------------------------------------
+use crate::engine::FuzzSpec;
+use std::path::Path;
+
+fn sig_generic(text: &str) -> String {
+    // panic@<file>:"<message prefix>"  (same shape as CLI crash signatures)
+    if let Some(i) = text.find("panicked at ") {
+        let rest = &text[i + 12..];
+        let loc = rest.lines().next().unwrap_or("");
+        let file = loc.split(':').next().unwrap_or("").trim();
+        let file = file.rsplit("/src/").next().unwrap_or(file);
+        let msg: String = rest.lines().nth(1).unwrap_or("").chars().take(48).collect();
+        let msg: String = msg.chars().map(|c| if c.is_ascii_digit() { '#' } else { c }).collect();
+        return format!("fuzz:panic@{file}:\"{msg}\"");
+    }
+    format!("fuzz:{}", text.lines().next().unwrap_or("crash").chars().take(80).collect::<String>())
+}
+
+fn corpus_pipeline(dir: &Path, seed: u64) {
+    use crate::gen::{self, ConfOpts, MutOpts};
+    use crate::tape::{mix, Tape};
+    // repository files x 5 modes
+    if let Ok(rd) = std::fs::read_dir("/repo/tests/test-data") {
+        for e in rd.flatten() {
+            if let Ok(b) = std::fs::read(e.path()) {
+                if b.len() < 30_000 {
+                    for m in 0..5u8 {
+                        let mut v = vec![m];
+                        v.extend_from_slice(&b);
+                        let _ = std::fs::write(dir.join(format!("repo_{}_{m}", e.file_name().to_string_lossy())), v);
+                    }
+                }
+            }
+        }
+    }
+    // generated conforming and mutated streams
+    for i in 0..60u64 {
+        let mut x = mix(seed ^ mix(i));
+        let tape: Vec<u16> = (0..gen::CONF_TAPE_LEN).map(|_| { x = mix(x); x as u16 }).collect();
+        let mut t = Tape::new(&tape);
+        let mut cs = gen::gen_conf_stream(&mut t, &ConfOpts { max_links: 3, max_hbfs: 2, big_16: 0, ..Default::default() });
+        if i % 2 == 1 {
+            let mut mt = t.fork(200);
+            gen::mutate_stream(&mut mt, &mut cs.stream, &MutOpts { protect_first: true, keep_framing: true, keep_layout: true }, 3, &mut vec![]);
+        }
+        let (b, _) = cs.stream.encode();
+        if b.len() < 30_000 {
+            let mut v = vec![(i % 5) as u8];
+            v.extend_from_slice(&b);
+            let _ = std::fs::write(dir.join(format!("gen_{i}")), v);
+        }
+    }
+}
+
+fn corpus_small(dir: &Path, _seed: u64) {
+    use crate::model::*;
+    let words = [ihw(7), tdh(&TdhF { trigger_type: 1, internal: true, no_data: false, continuation: false, bc: 1, orbit: 2 }), data_word(0x20, &[0xA0, 1, 0xB0, 0, 0, 0, 0, 0, 0]), tdt(0, 0, true, false, false), ddw0(0, false, false, 0), cdw(1, 0)];
+    let mut seq = vec![];
+    for w in &words {
+        seq.extend_from_slice(w);
+    }
+    let _ = std::fs::write(dir.join("seq"), &seq);
+    for (i, w) in words.iter().enumerate() {
+        let mut v = vec![i as u8];
+        v.extend_from_slice(w);
+        v.extend_from_slice(&[0xFF, 0xFF, 0xFF, 0x0F]);
+        let _ = std::fs::write(dir.join(format!("word{i}")), v);
+    }
+    let mut p = vec![0u8];
+    p.extend_from_slice(&seq);
+    p.extend_from_slice(&[0xFF; 6]);
+    let _ = std::fs::write(dir.join("payload2"), &p);
+    let mut p0 = vec![1u8];
+    p0.extend_from_slice(&seq);
+    let _ = std::fs::write(dir.join("payload0"), &p0);
+}
+
+pub fn fuzz_specs(id: &str) -> Vec<FuzzSpec> {
+    match id {
+        "C04" => vec![FuzzSpec { target: "pipeline", secs: 420, jobs: 12, corpus: corpus_pipeline, is_mine: |t| !t.contains("C07 violation"), signature: sig_generic }],
+        "C07" => vec![FuzzSpec { target: "pipeline", secs: 300, jobs: 12, corpus: corpus_pipeline, is_mine: |t| t.contains("C07 violation"), signature: |t| {
+            let i = t.find("C07 violation ").map(|i| i + 14).unwrap_or(0);
+            format!("fuzz:{}", t[i..].split(':').take(3).collect::<Vec<_>>().join(":").chars().take(80).collect::<String>())
+        } }],
+        "C09" => vec![FuzzSpec { target: "fsmseq", secs: 120, jobs: 8, corpus: corpus_small, is_mine: |_| true, signature: sig_generic }],
+        "C11" => vec![FuzzSpec { target: "words", secs: 120, jobs: 8, corpus: corpus_small, is_mine: |_| true, signature: sig_generic }],
+        "C12" => vec![FuzzSpec { target: "payload", secs: 120, jobs: 8, corpus: corpus_small, is_mine: |_| true, signature: sig_generic }],
+        _ => vec![],
+    }
+}
